@@ -48,7 +48,7 @@ def compute_vertex_normals(points, trilist):
     """
     face_normals = compute_face_normals(points, trilist)
 
-    vertex_normals = np.zeros(points.shape, dtype=points.dtype)
+    vertex_normals = np.zeros(points.shape, dtype=face_normals.dtype)
     np.add.at(vertex_normals, trilist[:, 0], face_normals)
     np.add.at(vertex_normals, trilist[:, 1], face_normals)
     np.add.at(vertex_normals, trilist[:, 2], face_normals)
